@@ -31,7 +31,8 @@ EXPLANATION = (
     'that branch; redactor apply() never returns its argument. R4: _generate_redactor is called '
     'for every field, tag and alias carrying a redactor and covers every Redacted subclass. '
     'R5: the caller set deciding parent chaining is closed over the ancestor chain. Decides '
-    'these structural parts, not the content of redacted strings.')
+    'these structural parts, not the content of redacted strings.'
+    ' RD (decision drift, stonelint.conddrift): the tests of the functions this property is anchored in (stonelint.ownership) are compared with reference/conditions.json; a relation, polarity or connective changed over the same operands, or an operand purely added or dropped, is a violation; re-spellings and new or removed tests are not claimed.')
 ASSUMPTIONS = [
     'bb.Union.__init__ reads all tag maps by design: it builds a local value and nothing leaves '
     'the process without passing encode_union (exempt by name)',
@@ -532,6 +533,10 @@ def run(pm, ctx):
     ctx.import_rules(pm, 'C08', {'C08-R4'}, 'C13-R6',
                      'a reference to an alias is emitted as the alias validator (which carries the '
                      'alias\'s redactor), never inlined (shared with C08-R4)')
+
+    from ..conddrift import run_decisions
+    from ..ownership import OWN
+    run_decisions(pm, ctx, 'C13-RD', OWN['C13'])
 
 
 def _parents(node):
